@@ -565,9 +565,151 @@ def t_extract(tree):
     return tree
 
 
+# ------------------------------------------------------------------ annot / counter / aug / rettemp / cache
+def t_annot(tree):
+    """x = E  ->  x: object = E   for plain local names (annotations of locals are never evaluated)"""
+    for fn in functions(tree):
+        declared = {nm for n in ast.walk(fn) if isinstance(n, (ast.Global, ast.Nonlocal)) for nm in n.names}
+
+        class T(ast.NodeTransformer):
+            def visit_FunctionDef(self, n):
+                return n if n is not fn else self.generic_visit(n)
+
+            def visit_Lambda(self, n):
+                return n
+
+            def visit_Assign(self, n):
+                if len(n.targets) == 1 and isinstance(n.targets[0], ast.Name) and n.targets[0].id not in declared:
+                    return ast.copy_location(ast.AnnAssign(target=n.targets[0], annotation=ast.Name(id="object", ctx=ast.Load()), value=n.value, simple=1), n)
+                return n
+        T().visit(fn)
+    return tree
+
+
+def t_counter(tree):
+    """for i, v in enumerate(X): BODY  ->  i = 0; for v in X: BODY; i += 1     (no continue in BODY, i not stored in BODY,
+    i not read after the loop; a start value is kept)"""
+    def rewrite_block(stmts, fn_names_after):
+        out = []
+        for k_, s in enumerate(stmts):
+            for f in ("body", "orelse", "finalbody"):
+                b = getattr(s, f, None)
+                if isinstance(b, list) and b and isinstance(b[0], ast.stmt):
+                    setattr(s, f, rewrite_block(b, None))
+            if isinstance(s, ast.Try):
+                for h in s.handlers:
+                    h.body = rewrite_block(h.body, None)
+            if isinstance(s, ast.For) and isinstance(s.iter, ast.Call) and isinstance(s.iter.func, ast.Name) and s.iter.func.id == "enumerate" \
+                    and len(s.iter.args) in (1, 2) and not s.iter.keywords and isinstance(s.target, ast.Tuple) and len(s.target.elts) == 2 \
+                    and isinstance(s.target.elts[0], ast.Name) and not s.orelse:
+                i = s.target.elts[0].id
+                inner = ast.Module(body=s.body, type_ignores=[])
+                bad = any(isinstance(n, (ast.Continue, ast.FunctionDef, ast.Lambda)) or (isinstance(n, ast.Name) and n.id == i and not isinstance(n.ctx, ast.Load))
+                          for n in ast.walk(inner))
+                later = any(isinstance(n, ast.Name) and n.id == i for r in stmts[k_ + 1:] for n in ast.walk(r))
+                start = s.iter.args[1] if len(s.iter.args) == 2 else ast.Constant(value=0)
+                if not bad and not later and isinstance(start, ast.Constant) and fn_names_after is not None:
+                    out.append(ast.copy_location(ast.Assign(targets=[ast.Name(id=i, ctx=ast.Store())], value=start), s))
+                    s.target = s.target.elts[1]
+                    s.iter = s.iter.args[0]
+                    s.body = s.body + [ast.copy_location(ast.AugAssign(target=ast.Name(id=i, ctx=ast.Store()), op=ast.Add(), value=ast.Constant(value=1)), s)]
+            out.append(s)
+        return out
+    for fn in functions(tree):
+        fn.body = rewrite_block(fn.body, True)     # only loops at the top level of a function body (the index is then provably dead afterwards)
+    return tree
+
+
+def t_aug(tree):
+    """x += c  ->  x = x + c   and   x -= c -> x = x - c   for a plain name x and a numeric literal c"""
+    class T(ast.NodeTransformer):
+        def visit_AugAssign(self, n):
+            if isinstance(n.target, ast.Name) and isinstance(n.op, (ast.Add, ast.Sub)) and isinstance(n.value, ast.Constant) \
+                    and isinstance(n.value.value, (int, float)) and not isinstance(n.value.value, bool):
+                return ast.copy_location(ast.Assign(targets=[ast.Name(id=n.target.id, ctx=ast.Store())],
+                                                    value=ast.BinOp(left=ast.Name(id=n.target.id, ctx=ast.Load()), op=n.op, right=n.value)), n)
+            return n
+    return T().visit(tree)
+
+
+def t_rettemp(tree):
+    """return E  ->  _mm_r = E; return _mm_r     (E not a plain name / constant)"""
+    def rewrite_block(stmts):
+        out = []
+        for s in stmts:
+            for f in ("body", "orelse", "finalbody"):
+                b = getattr(s, f, None)
+                if isinstance(b, list) and b and isinstance(b[0], ast.stmt) and not isinstance(s, (ast.FunctionDef, ast.ClassDef)):
+                    setattr(s, f, rewrite_block(b))
+            if isinstance(s, ast.Try):
+                for h in s.handlers:
+                    h.body = rewrite_block(h.body)
+            if isinstance(s, ast.Return) and s.value is not None and not isinstance(s.value, (ast.Name, ast.Constant)):
+                out.append(ast.copy_location(ast.Assign(targets=[ast.Name(id="_mm_r", ctx=ast.Store())], value=s.value), s))
+                s = ast.copy_location(ast.Return(value=ast.Name(id="_mm_r", ctx=ast.Load())), s)
+            out.append(s)
+        return out
+    for fn in functions(tree):
+        fn.body = rewrite_block(fn.body)
+    return tree
+
+
+def t_cache(tree):
+    """self.a read at least twice in a method and never stored in the module outside __init__ -> c = self.a at the top of the
+    method and c at the reads (the methods of this package rebind such configuration attributes only in __init__)"""
+    stored_elsewhere = set()
+    for fn in functions(tree):
+        if fn.name in ("__init__",):
+            continue
+        for n in ast.walk(fn):
+            if isinstance(n, ast.Attribute) and not isinstance(n.ctx, ast.Load):
+                stored_elsewhere.add(n.attr)
+    k = [0]
+    for cls in [c for c in ast.walk(tree) if isinstance(c, ast.ClassDef)]:
+        for fn in [m for m in cls.body if isinstance(m, ast.FunctionDef)]:
+            if not fn.args.args or fn.name == "__init__" or any(isinstance(d, ast.Name) and d.id in ("staticmethod", "classmethod", "property") for d in fn.decorator_list):
+                continue
+            selfn = fn.args.args[0].arg
+            counts = {}
+            for n in own_nodes(fn):
+                if isinstance(n, ast.Attribute) and isinstance(n.ctx, ast.Load) and isinstance(n.value, ast.Name) and n.value.id == selfn:
+                    counts[n.attr] = counts.get(n.attr, 0) + 1
+            # not the callee of a method call (self.m(...)), not stored anywhere but __init__
+            callee = {n.func.attr for n in ast.walk(fn) if isinstance(n, ast.Call) and isinstance(n.func, ast.Attribute)
+                      and isinstance(n.func.value, ast.Name) and n.func.value.id == selfn}
+            nested = any(isinstance(n, (ast.FunctionDef, ast.Lambda)) for n in ast.walk(ast.Module(body=fn.body, type_ignores=[])))
+            if any(isinstance(n, ast.Name) and n.id == selfn and not isinstance(n.ctx, ast.Load) for n in ast.walk(fn)) or nested:
+                continue
+            for attr, c in sorted(counts.items()):
+                if c < 2 or attr in stored_elsewhere or attr in callee:
+                    continue
+                k[0] += 1
+                nm = "_mm_c%d" % k[0]
+
+                class T(ast.NodeTransformer):
+                    def visit_Attribute(self, n):
+                        self.generic_visit(n)
+                        if isinstance(n.ctx, ast.Load) and isinstance(n.value, ast.Name) and n.value.id == selfn and n.attr == attr:
+                            return ast.copy_location(ast.Name(id=nm, ctx=ast.Load()), n)
+                        return n
+
+                    def visit_ListComp(self, n):
+                        return n
+                    visit_SetComp = visit_DictComp = visit_GeneratorExp = visit_Lambda = visit_ListComp
+                doc = 1 if (fn.body and isinstance(fn.body[0], ast.Expr) and isinstance(fn.body[0].value, ast.Constant)) else 0
+                body = [T().visit(b) for b in fn.body[doc:]]
+                bind = ast.Assign(targets=[ast.Name(id=nm, ctx=ast.Store())],
+                                  value=ast.Attribute(value=ast.Name(id=selfn, ctx=ast.Load()), attr=attr, ctx=ast.Load()))
+                ast.copy_location(bind, fn.body[doc] if len(fn.body) > doc else fn)
+                fn.body = fn.body[:doc] + [bind] + body
+                break       # one cached attribute per method
+    return tree
+
+
 TRANSFORMS = {"inline1": t_inline1, "extract": t_extract, "ifexp": t_ifexp, "comp": t_comp, "guard": t_guard, "tuple": t_tuple, "while": t_while, "rename": t_rename, "negate": t_negate, "flip": t_flip, "demorgan": t_demorgan, "enum": t_enum, "temp": t_temp,
-              "flatten": t_flatten, "unflatten": t_unflatten}
-COMBOS = [("extract", "rename", "flip"), ("inline1", "negate", "while"), ("comp", "rename", "guard"), ("while", "tuple", "ifexp"), ("rename", "temp"), ("negate", "flip"), ("enum", "rename", "flatten"), ("temp", "negate", "unflatten")]
+              "flatten": t_flatten, "unflatten": t_unflatten, "annot": t_annot, "counter": t_counter, "aug": t_aug, "rettemp": t_rettemp, "cache": t_cache}
+COMBOS = [("extract", "rename", "flip"), ("inline1", "negate", "while"), ("comp", "rename", "guard"), ("while", "tuple", "ifexp"), ("rename", "temp"), ("negate", "flip"), ("enum", "rename", "flatten"), ("temp", "negate", "unflatten"),
+          ("cache", "counter", "aug"), ("annot", "rettemp", "rename"), ("cache", "extract", "annot")]
 
 
 def make_variant(names, dest):
